@@ -33,7 +33,7 @@ func unbondProfile() Profile {
 func slashProfile() Profile {
 	p := baseProfile()
 	p.Name = "slash"
-	p.Weights = map[string]int{KDelegate: 22, KUndelegate: 12, KRedelegate: 18, KClaim: 3, KBlock: 14, KSlashHook: 12, KSlash: 10, KUnbTime: 2, KJail: 1, KUnjail: 1, KDelete: 1, KCreate: 1}
+	p.Weights = map[string]int{KDelegate: 22, KUndelegate: 12, KRedelegate: 18, KClaim: 3, KBlock: 14, KSlashHook: 12, KSlash: 10, KUnbTime: 2, KJail: 1, KUnjail: 1, KDelete: 1, KCreate: 1, GRedelThenExit: 5}
 	p.FocusDelPct = 40
 	return p
 }
@@ -195,11 +195,13 @@ func init() {
 			p.Weights[KUndelegate] = 16
 			return tierSteps(p, tier)
 		},
-		Oracles: func() []Oracle { return []Oracle{OracleC08{}} },
+		Oracles: func() []Oracle {
+			return []Oracle{OracleC08{}, Relabel{OracleC07{}, "C08", "complete:"}, Relabel{OracleC06{}, "C08", "complete:"}}
+		},
 		NonTrivial: func(x *Exec) bool {
 			return x.Has("c08:destination-position-gone") || x.Has("c08:destination-position-shrunk") || x.Has("c08:asset-deleted-while-redelegation-pending")
 		},
-		Rule: "stateful rapid histories, 'slash' profile biased to redelegate-then-undelegate / redelegate-onward shapes; oracle = the slashing callback returns nil without panic (callback level: return value; real staking slash: the error x/staking logs and swallows is captured from the logger) and leaves the rebalance flag set; non-trivial = slash with a pending redelegation out of the slashed validator whose destination position has since shrunk below the redelegated amount, disappeared, or whose asset was deleted; distinct = distinct concrete op list",
+		Rule: "stateful rapid histories, 'slash' profile biased to redelegate-then-undelegate / redelegate-onward shapes; oracle = the slashing callback returns nil without panic (callback level: return value; real staking slash: the error x/staking logs and swallows is captured from the logger), leaves the rebalance flag set, and its effects are complete (the C06 and C07 oracles run as sub-checks); non-trivial = slash with a pending redelegation out of the slashed validator whose destination position has since shrunk below the redelegated amount, disappeared, or whose asset was deleted; distinct = distinct concrete op list",
 	})
 	register(&Spec{
 		ID:         "C17",
